@@ -8,7 +8,7 @@
 #include <errno.h>
 #include "vtmt.h"
 
-static PMutex *mx; static PCondVariable *cv; static const char *base;
+static PMutex *mx, *mx_ab[2]; static PCondVariable *cv; static const char *base;
 static int call_ (int t, const char *op) {
 	pboolean r;
 	VTM ("\"e\":\"call\",\"t\":%d,\"op\":\"%s\"", t, op);
@@ -112,7 +112,7 @@ int main (int argc, char **argv) {
 	if (argc < 6) return 2;
 	base = argv[2];
 	p_libsys_init (); p_libsys_shutdown (); p_libsys_init ();      /* the library is used after a shutdown / re-initialisation cycle */
-	mx = p_mutex_new (); cv = p_cond_variable_new ();
+	mx_ab[0] = mx = p_mutex_new (); mx_ab[1] = p_mutex_new (); cv = p_cond_variable_new ();
 	if (!strcmp (argv[1], "gen")) {
 		vtm_init (1); vtm_open (base, 0);
 		VTM ("\"e\":\"Epoch\",\"cell\":0");
@@ -134,6 +134,9 @@ int main (int argc, char **argv) {
 		for (r = 0; r < rounds; r++) {
 			VTM ("\"e\":\"Epoch\",\"cell\":%ld", gen);
 			inwait = 0; returned = 0; for (i = 1; i <= nw; i++) wstate[i] = 0;
+			/* the condition variable is paired with the mutex given to each wait, not with the first one it saw: between rounds (nobody
+			 * is inside) the mutex is exchanged - A, B, B, A, A, B, ... so that the first round with the other mutex is a trylock round */
+			mx = mx_ab[((r + 1) / 2) % 2];
 			vtm_barrier ();
 			/* wait until every waiter has announced (under the mutex) that it is about to wait; acquiring the mutex
 			 * afterwards orders us after its atomic release-and-block */
@@ -170,7 +173,7 @@ int main (int argc, char **argv) {
 		vtm_barrier ();
 		for (i = 1; i <= nw; i++) pthread_join (wth[i], NULL);
 	}
-	p_cond_variable_free (cv); p_mutex_free (mx);
+	p_cond_variable_free (cv); p_mutex_free (mx_ab[0]); p_mutex_free (mx_ab[1]);
 	vtm_close ();
 	p_libsys_shutdown ();
 	return 0;
